@@ -4,6 +4,7 @@ use super::amo::*;
 use super::asyncp::*;
 use super::cachesnap::*;
 use super::containers::*;
+use super::ffi::C17;
 use super::more::*;
 use super::solve::*;
 use crate::gen::Params;
@@ -118,6 +119,11 @@ pub fn stages(id: &str) -> Vec<Stage> {
         ],
         "C20" => vec![
             st(C20 { params: Params::default().hint_heavy(), stage: "main", max_ops: 40 }, 10_000, 400_000, Release),
+        ],
+        "C17" => vec![
+            st(C17 { stage: "solve", kind: "solve", max_tape: 900 }, 400, 8_000, Release),
+            st(C17 { stage: "cpp-containers", kind: "cpp", max_tape: 260 }, 2_000, 40_000, Release),
+            st(C17 { stage: "rust-containers", kind: "rust", max_tape: 260 }, 2_000, 40_000, Release),
         ],
         "C18" => vec![
             st(C18 { stage: "main", max_ops: 250 }, 4_000, 150_000, Release),
